@@ -2806,6 +2806,61 @@ def ctx_tup(it, ret):
     return it.ctx.tups.get(str(ret))
 
 
+def site_read_metadata_selection(fns):
+    f = mir.find(fns, "::read_metadata", "src/storage/io.rs")
+    ob = Ob("site_read_metadata_selection", "DiskIO::read_metadata, every path: blocks 0..=7 are read once; the primary copy is block 0 and the backup copy is block 7 of that buffer; both go "
+            "through Metadata::from_bytes; the BACKUP is believed exactly when it is valid and either the primary is invalid or the backup's generation is GREATER, otherwise the primary "
+            "(two invalid copies hand back the primary for the caller's signature test); a failed read is propagated", "all paths; from_bytes and generation() havocked", f)
+    it = Interp(f, loop_bound=1, pure=PURE, slices=True)
+    chose_b = chose_p = 0
+    for p in it.run():
+        ob.paths += 1
+        if p.status != "return":
+            continue
+        rd = events(p, "DiskIO::read_sectors_sync")
+        if not ob.must_hold(len(rd) == 1, "one device read"):
+            continue
+        ob.need(it, rd[0].pc, z3.And(rd[0].args[1] == 0, rd[0].args[2] == 8), "blocks 0..=7 are read (start 0, 8 blocks)")
+        tv = [e for e in p.events if e.kind == "call" and e.callee.endswith("::to_vec")]
+        if not tv:
+            ok_, _ = it.entails(p.pc, it.ctx.disc(it.as_u(rd[0].ret)) != 0)
+            ob.must_hold(ok_, "no answer only when the read failed")
+            continue
+        sl = [e for e in p.events if e.kind == "slice"]
+        ix = [e for e in p.events if e.kind == "call" and "::index" in e.callee and "Vec<u8>" in e.callee]
+        fb = events(p, "Metadata::from_bytes")
+        if not ob.must_hold(len(sl) == 2 and len(ix) == 2 and len(fb) == 2, "two windows of the buffer, both parsed"):
+            continue
+        buf = it.ctx.uf("proj_Ok_0", [U], U)(it.as_u(rd[0].ret))
+        ob.must_hold(all(z3.eq(it.as_u(x.args[0]), buf) for x in sl), "both windows are taken from the buffer that was read")
+        ob.need(it, p.pc, z3.And(sl[0].args[1] == 0, sl[0].args[2] == 4096), "primary copy = bytes 0..4096 (block 0)")
+        ob.need(it, p.pc, z3.And(sl[1].args[1] == 7 * 4096, sl[1].args[2] == 8 * 4096), "backup copy = bytes 7*4096..8*4096 (block 7)")
+        prim, back = it.as_u(ix[0].ret), it.as_u(ix[1].ret)
+        fp = [e for e in fb if z3.eq(it.as_u(e.args[0]), prim)]
+        fbk = [e for e in fb if z3.eq(it.as_u(e.args[0]), back)]
+        if not ob.must_hold(len(fp) == 1 and len(fbk) == 1, "each copy is validated once"):
+            continue
+        vp_, vb = it.ctx.disc(it.as_u(fp[0].ret)) == 1, it.ctx.disc(it.as_u(fbk[0].ret)) == 1
+        gens = events(p, "Metadata::generation")
+        gp = [g for g in gens if contains(g.args[0], it.as_u(fp[0].ret))]
+        gb = [g for g in gens if contains(g.args[0], it.as_u(fbk[0].ret))]
+        newer = z3.UGT(gb[0].ret, gp[0].ret) if gp and gb else None
+        is_b = z3.eq(it.as_u(tv[0].args[0]), back)
+        is_p = z3.eq(it.as_u(tv[0].args[0]), prim)
+        ob.must_hold(is_b or is_p, "the answer is one of the two copies")
+        both, _ = it.entails(p.pc, z3.And(vp_, vb))
+        if both:
+            if not ob.must_hold(newer is not None, "with two valid copies their generations are compared"):
+                continue
+            ob.need(it, p.pc, newer if is_b else z3.Not(newer), "two valid copies: the backup is believed iff its generation is GREATER than the primary's")
+        else:
+            ob.need(it, p.pc, z3.And(vb, z3.Not(vp_)) if is_b else z3.Or(vp_, z3.Not(vb)), "one or no valid copy: the backup is believed iff it is the only valid one")
+        chose_b += 1 if is_b else 0
+        chose_p += 1 if is_p else 0
+    ob.must_hold(chose_b >= 2 and chose_p >= 2, "paths believing each copy were reached (%d/%d)" % (chose_p, chose_b))
+    return ob.result(it, witness="c03_metadata_copy_selection")
+
+
 def site_write_store_metadata(fns):
     f = mir.find(fns, "::write_store_metadata", IO_HINT)
     ob = Ob("c10_write_store_metadata", "write_store_metadata: the copy with generation g+1 goes to block 0 when g+1 is even and to the backup block 7 when odd "
@@ -2837,7 +2892,7 @@ def site_write_store_metadata(fns):
 
 def io_protocol(fns):
     return [site_retire_extents(fns), site_replay_journal(fns), site_journal_write(fns, "write_allocation_journal"),
-            site_journal_write(fns, "clear_allocation_journal"), kernel_next_journal_position(fns)]
+            site_journal_write(fns, "clear_allocation_journal"), kernel_next_journal_position(fns), site_read_metadata_selection(fns)]
 
 
 # ============================================================================ retirement queue: flush lock discipline
@@ -2886,7 +2941,7 @@ def c09(fns, tier, env):
 
 
 def c10(fns, tier, env):
-    return finalize([site_write_store_metadata(fns), site_flush_all(fns), journal_slot_acceptance(fns), journal_slot_selection(fns), scan_iteration(fns)], env)
+    return finalize([site_write_store_metadata(fns), site_read_metadata_selection(fns), site_flush_all(fns), journal_slot_acceptance(fns), journal_slot_selection(fns), scan_iteration(fns)], env)
 
 
 def c01(fns, tier, env):
